@@ -52,7 +52,7 @@ def main():
             json.dump({**stats, "nt_hashes": sorted(nt_seen)}, f)
 
     @settings(database=None, deadline=None, suppress_health_check=list(HealthCheck), report_multiple_bugs=False)
-    @given(mod.case_strategy())
+    @given((getattr(mod, "case_strategy", None) or mod.sampled_case)())
     def prop(case):
         res = mod.evaluate(case)
         stats["executions"] += 1
@@ -61,7 +61,7 @@ def main():
         if res.nontrivial:
             stats["nontrivial"] += 1
             nt_seen.add(core.case_hash(case))
-        if stats["executions"] % 200 == 0:
+        if stats["executions"] % 50 == 0:
             flush()
         unknown = [v for v in res.verdicts if known.match(v) is None]
         if unknown:
@@ -140,6 +140,14 @@ def campaign(prop: str, runs: int, seed: int, out, timeout: int = 3600):
         return f"exit {rc}, {st.get('executions', 0)} executions, {nviol} violations"
     finally:
         shutil.rmtree(d, ignore_errors=True)
+
+
+def thorough_stage(prop: str, ctx, out, runs: int = 4000):
+    """Called at the end of a check's shard(): in the thorough tier add one coverage-guided campaign per shard."""
+    if ctx["tier"] != "thorough":
+        return
+    out.extra["coverage_guided_stage"] = f"atheris fuzz_one_input over the {prop} case strategy with cfdppy instrumented, pseudo-random starting corpus, {runs} runs per shard"
+    campaign(prop, runs, ctx["seed"], out)
 
 
 if __name__ == "__main__":
